@@ -313,9 +313,12 @@ def substitute(exprs, repl):  # noqa: C901
             expr = repl[expr]
             didrepl = True
         if didrepl:
+            # insert the replacement as it is: descending into it would
+            # rewrite it again (and never stop if it contains its own key)
             changed = True
-            if expr is None:
-                continue
+            if expr is not None:
+                args[-1].append(expr)
+            continue
 
         if visited:
             children = args.pop()
